@@ -77,6 +77,7 @@ type FuncContract struct {
 	Strings    bool     // use SMT strings in this function
 	NoInline   bool
 	ReadsClock bool
+	NoAxioms   map[string]bool
 	File       string
 	Line       int
 }
@@ -96,6 +97,7 @@ type TypeContract struct {
 	Guarded   map[string]string // field -> mutex field
 	Ghost     map[string]*GhostField
 	LockInv   map[string][]*LockInv // mutex field -> invariants
+	Guards    map[string][]string // mutex field -> foreign locations (T.f, pkg.T.f, elems(T)) it also protects
 	ExtSync   bool
 	Mutators  map[string]bool // methods that mutate an extsync object
 	SetupOnly map[string]bool // methods that are set-up calls (may write immutable fields)
@@ -136,7 +138,7 @@ type Contracts struct {
 	Nclause int
 }
 
-var keywordRe = regexp.MustCompile(`^(spec|pred|axiom|lemma|globalinv|type|func|iface|functype|extern|props|atomic|holds|at_call|requires|ensures|ensures_panic|ghost_ensures|modifies|loop|assume|nopanic|maypanic|trusted|pure|readsclock|params|immutable|stable|guarded_by|ghost|lockinv|extsync|mutators|setup|strings|noinline)\b`)
+var keywordRe = regexp.MustCompile(`^(spec|pred|axiom|lemma|globalinv|type|func|iface|functype|extern|props|atomic|holds|at_call|requires|ensures|ensures_panic|ghost_ensures|modifies|loop|assume|nopanic|maypanic|trusted|pure|readsclock|noaxioms|params|immutable|stable|guards|guarded_by|ghost|lockinv|extsync|mutators|setup|strings|noinline)\b`)
 
 var labelRe = regexp.MustCompile(`^([A-Za-z_][A-Za-z_0-9]*):([^:]|$)`)
 var propsRe = regexp.MustCompile(`^\{([A-Z0-9, ]+)\}\s*`)
@@ -266,7 +268,7 @@ func (cs *Contracts) LoadContractFile(path, pkg string) error {
 			}
 			curF, curT = nil, nil
 		case "type":
-			curT = &TypeContract{Pkg: pkg, Name: rest, Immutable: map[string]bool{}, Stable: map[string]bool{}, Guarded: map[string]string{}, Ghost: map[string]*GhostField{}, LockInv: map[string][]*LockInv{}, Mutators: map[string]bool{}, SetupOnly: map[string]bool{}}
+			curT = &TypeContract{Pkg: pkg, Name: rest, Immutable: map[string]bool{}, Stable: map[string]bool{}, Guarded: map[string]string{}, Ghost: map[string]*GhostField{}, LockInv: map[string][]*LockInv{}, Guards: map[string][]string{}, Mutators: map[string]bool{}, SetupOnly: map[string]bool{}}
 			tp := pkg
 			name := rest
 			if i := strings.LastIndex(rest, "."); i >= 0 { // foreign type: pkgpath.T
@@ -299,6 +301,16 @@ func (cs *Contracts) LoadContractFile(path, pkg string) error {
 			for _, f := range strings.Fields(strings.ReplaceAll(rest, ",", " ")) {
 				curT.Stable[f] = true
 			}
+		case "guards":
+			if curT == nil {
+				return fail(l, "guards outside type")
+			}
+			i := strings.Index(rest, ":")
+			if i < 0 {
+				return fail(l, "guards mu: T.f ...")
+			}
+			mu := strings.TrimSpace(rest[:i])
+			curT.Guards[mu] = append(curT.Guards[mu], strings.Fields(strings.ReplaceAll(rest[i+1:], ",", " "))...)
 		case "guarded_by":
 			if curT == nil {
 				return fail(l, "guarded_by outside type")
@@ -383,6 +395,13 @@ func (cs *Contracts) LoadContractFile(path, pkg string) error {
 				curF.Pure = true
 			case "readsclock":
 				curF.ReadsClock = true
+			case "noaxioms":
+				if curF.NoAxioms == nil {
+					curF.NoAxioms = map[string]bool{}
+				}
+				for _, a := range strings.Fields(strings.ReplaceAll(rest, ",", " ")) {
+					curF.NoAxioms[a] = true
+				}
 			case "strings":
 				curF.Strings = true
 			case "noinline":
